@@ -430,3 +430,63 @@ theorem countLoop_spec (r k : Nat) (hr : 2 ≤ r) (hk : 1 ≤ k) :
 
 
 end LexVerif.Model.WriteInt
+
+namespace LexVerif.Model.WriteInt
+open LexVerif.Spec
+
+theorem naiveCount_eq (bits radix value : Nat) : naiveCount bits radix value =
+  ((if bits ≥ 32 ∨ (radix % 2 ^ 32 * (radix % 2 ^ 32) % 2 ^ 32) * (radix % 2 ^ 32 * (radix % 2 ^ 32) % 2 ^ 32) % 2 ^ 32 < maxAsU32 bits then
+      countLoop ((radix % 2 ^ 32 * (radix % 2 ^ 32) % 2 ^ 32) * (radix % 2 ^ 32 * (radix % 2 ^ 32) % 2 ^ 32) % 2 ^ 32 % 2 ^ bits) 4 loopFuel value 1
+    else Res.ok (value, 1)) >>= fun x =>
+   (if bits ≥ 16 ∨ radix % 2 ^ 32 * (radix % 2 ^ 32) % 2 ^ 32 < maxAsU32 bits then
+      countLoop (radix % 2 ^ 32 * (radix % 2 ^ 32) % 2 ^ 32 % 2 ^ bits) 2 loopFuel x.1 x.2
+    else Res.ok x) >>= fun y =>
+   countLoop (radix % 2 ^ 32 % 2 ^ bits) 1 loopFuel y.1 y.2 >>= fun z => Res.ok z.2) := rfl
+
+/-- the naive 4-2-1 digit count is exact -/
+theorem naiveCount_spec (bits r value : Nat) (hb : SmallBits bits) (hr : 2 ≤ r) (hr36 : r ≤ 36)
+    (hv : value < 2 ^ bits) : naiveCount bits r value = .ok (toDigits r value).length := by
+  obtain ⟨H4, H2, _⟩ := widths_ok bits r hb hr hr36
+  have hb8 : 8 ≤ bits := by rcases hb with h | h | h | h <;> omega
+  have hb64 : bits ≤ 64 := by rcases hb with h | h | h | h <;> omega
+  have hfuel : ∀ v, v ≤ value → v < 2 ^ loopFuel := fun v hle =>
+    Nat.lt_of_le_of_lt hle (Nat.lt_of_lt_of_le hv (Nat.pow_le_pow_right (by omega) (by unfold loopFuel; omega)))
+  have hf1 : 1 ≤ loopFuel := by unfold loopFuel; omega
+  have hr32 : r % 2 ^ 32 = r := Nat.mod_eq_of_lt (by omega)
+  have hrT : r % 2 ^ bits = r := Nat.mod_eq_of_lt (by
+    have : (2:Nat) ^ 8 ≤ 2 ^ bits := Nat.pow_le_pow_right (by omega) hb8
+    omega)
+  rw [naiveCount_eq, hr32, r32 r hr36, r432 r hr36, hrT]
+  have st1 : ∃ v1 j1, (toDigits r value).length = (toDigits r v1).length + 4 * j1 ∧ v1 ≤ value ∧
+      (if bits ≥ 32 ∨ r * r * (r * r) < maxAsU32 bits then
+        countLoop (r * r * (r * r) % 2 ^ bits) 4 loopFuel value 1 else Res.ok (value, 1)) = .ok (v1, 1 + 4 * j1) := by
+    by_cases c : bits ≥ 32 ∨ r * r * (r * r) < maxAsU32 bits
+    · rw [if_pos c, Nat.mod_eq_of_lt (H4 c).1, ← pow_four_eq]
+      obtain ⟨v', j, _, hl, hle, hrun⟩ := countLoop_spec r 4 hr (by omega) value loopFuel 1 (hfuel _ (Nat.le_refl _)) hf1
+      exact ⟨v', j, hl, hle, hrun⟩
+    · rw [if_neg c]; exact ⟨value, 0, by simp, Nat.le_refl _, by simp⟩
+  obtain ⟨v1, j1, hl1, hle1, hrun1⟩ := st1
+  rw [hrun1, bind_ok]
+  simp only []
+  have st2 : ∃ v2 j2, (toDigits r v1).length = (toDigits r v2).length + 2 * j2 ∧ v2 ≤ v1 ∧
+      (if bits ≥ 16 ∨ r * r < maxAsU32 bits then
+        countLoop (r * r % 2 ^ bits) 2 loopFuel v1 (1 + 4 * j1) else Res.ok (v1, 1 + 4 * j1)) =
+        .ok (v2, 1 + 4 * j1 + 2 * j2) := by
+    by_cases c : bits ≥ 16 ∨ r * r < maxAsU32 bits
+    · rw [if_pos c, Nat.mod_eq_of_lt (H2 c).1, ← pow_two_eq]
+      obtain ⟨v', j, _, hl, hle, hrun⟩ := countLoop_spec r 2 hr (by omega) v1 loopFuel (1 + 4 * j1) (hfuel _ hle1) hf1
+      exact ⟨v', j, hl, hle, hrun⟩
+    · rw [if_neg c]; exact ⟨v1, 0, by simp, Nat.le_refl _, by simp⟩
+  obtain ⟨v2, j2, hl2, hle2, hrun2⟩ := st2
+  rw [hrun2, bind_ok]
+  simp only []
+  obtain ⟨v3, j3, hv3, hl3, _, hrun3⟩ :=
+    countLoop_spec r 1 hr (by omega) v2 loopFuel (1 + 4 * j1 + 2 * j2) (hfuel _ (by omega)) hf1
+  rw [Nat.pow_one] at hrun3 hv3
+  rw [hrun3, bind_ok]
+  simp only []
+  rw [toDigits_lt r v3 hv3] at hl3
+  simp at hl3
+  congr 1; omega
+
+end LexVerif.Model.WriteInt
